@@ -22,9 +22,25 @@ decreasing cost, and for equal cost decreasing length (so the cheapest, then sho
 def pathLe (l r : Path) : Bool :=
   l.cost > r.cost || (l.cost == r.cost && l.elems.length ≥ r.elems.length)
 
+/-- Stable insertion of `x` into a list sorted by `pathLe` (before the first element it is `≤` to). -/
+def insertPath (x : Path) : List Path → List Path
+  | [] => [x]
+  | y :: ys => if pathLe x y then x :: y :: ys else y :: insertPath x ys
+
+/-- `paths.sort_by(..)`: the stable sort by `pathLe`, written as a structurally recursive insertion sort
+(for a total pre-order the stably sorted list is unique, so this is the list `sort_by` produces). -/
+def sortPaths (l : List Path) : List Path := l.foldr insertPath []
+
 structure PS where
   paths : List Path
   visited : List Int
+
+/-- `index` of `process_path`: the last element of the current path (`GraphIndex::default()` = 0 for the
+impossible empty path). -/
+def lastOf (p : Path) : Int :=
+  match p.elems.getLast? with
+  | some q => q.1
+  | none => 0
 
 /-- `expand_edge` followed by `expand_node` for one outgoing edge `e` (element id) of the current path.
 `cur` is `current_path`; `h` the handler. `legacy = true`: the edge is evaluated at `len + 1`
@@ -44,14 +60,12 @@ def expandEdge (legacy : Bool) (h : Int → Nat → Nat × Bool) (visited : List
 Returns either the finished result (`Sum.inr`) or the next state. -/
 def pathStep (legacy : Bool) (g : Graph) (h : Int → Nat → Nat × Bool) (dest : Int) (s : PS) :
     PS ⊕ List (Int × Bool) :=
-  let sorted := s.paths.mergeSort pathLe
+  let sorted := sortPaths s.paths
   match sorted.getLast? with
   | none => .inr []
   | some cur =>
     let paths := sorted.dropLast
-    let index := match cur.elems.getLast? with
-      | some p => p.1
-      | none => 0
+    let index := lastOf cur
     if s.visited.contains index then .inl ⟨paths, s.visited⟩
     else if index = dest then .inr cur.elems
     else
